@@ -1,15 +1,18 @@
 import Driver.Util
 import AwsVerif.Model.HashTable
+import AwsVerif.Model.Lookup3
 /-! Line-protocol driver for the hash-table model (component `hashtable`).  Op language:
 
 ```
 hash k7 ffffffffffffffff        user hash of ident 7 (default 0)
 init t0 8 kv|k|v|-              aws_hash_table_init, which destructors are installed
 put t0 k7.p1 v3 | create t0 k7.p0 | find t0 k7.p0 | remove t0 k7.p0 out|noout | remel t0 k7.p0
-clear t0 | cleanup t0 | swap t0 t1 | move t1 t0 | eq t0 t1 | count t0
+clear t0 | cleanup t0 | swap t0 t1 | move t1 t0 | eq t0 t1 | eqm t0 t1 (value_eq = equal mod 8) | count t0
 iter_begin t0 i0 | iter_next i0 | iter_done i0 | iter_delete i0 destroy|keep
 foreach t0 k1:3 k2:0 ...        callback flag word per ident (default 1 = CONTINUE; 2 = DELETE, 4 = ERROR)
 hashic <hex> | eqic <hex> <hex> case-insensitive hash / equality of byte_buf.c
+hl2 <hex>                       aws_hash_byte_cursor_ptr at the 4 alignments, aws_hash_string, aws_hash_c_string at the 4 alignments
+hptr <hex64> | hcomb <hex64> <hex64>   aws_hash_ptr, aws_hash_combine
 ```
 Keys: `knull` or `k<ident>.p<ptr>`; values: `vnull` or `v<n>`.
 Any structural change of a table makes the iterators on it stale (both sides apply the same rule);
@@ -144,6 +147,18 @@ def step (s : St) (t : List String) : St × List String :=
   | ["hashic", hx] => match parseHex? hx with
     | some bs => (s, ["W hashic " ++ hex64 (hashIgnoreCase bs)])
     | none => bad s
+  | ["hl2", hx] => match parseHex? hx with
+    | some bs =>
+      let hb := hex64 (AwsVerif.Lookup3.hashBytes bs)
+      let hc := hex64 (AwsVerif.Lookup3.hashCStr bs)
+      (s, ["P hl2 consistent=1", s!"W hl2 cur={hb},{hb},{hb},{hb} str={hb} cstr={hc},{hc},{hc},{hc}"])
+    | none => bad s
+  | ["hptr", v] => match parseHexNat? v with
+    | some p => (s, ["W hptr " ++ hex64 (AwsVerif.Lookup3.hashPtr (p % 2 ^ 64))])
+    | none => bad s
+  | ["hcomb", a, b] => match parseHexNat? a, parseHexNat? b with
+    | some a, some b => (s, ["W hcomb " ++ hex64 (AwsVerif.Lookup3.hashCombine (a % 2 ^ 64) (b % 2 ^ 64))])
+    | _, _ => bad s
   | ["eqic", a, b] => match parseHex? a, parseHex? b with
     | some a, some b => (s, [s!"P eqic {if eqIgnoreCase a b then 1 else 0} hasheq={if hashIgnoreCase a == hashIgnoreCase b then 1 else 0}"])
     | _, _ => bad s
@@ -208,18 +223,22 @@ def step (s : St) (t : List String) : St × List String :=
     | some tb => (s, [s!"P count {tb.entryCount}"])
   | ["swap", a, b] =>
     if a == b then bad s else
-    let ta := s.tab a; let tb := s.tab b
-    let s := (((s.setTab a tb).setTab b ta).stale a).stale b
-    (s, ["P swap"] ++ stateLines a tb ++ stateLines b ta)
+    let (ta, tb) := swapTables (s.tab a) (s.tab b)
+    let s := (((s.setTab a ta).setTab b tb).stale a).stale b
+    (s, ["P swap"] ++ stateLines a ta ++ stateLines b tb)
   | ["move", a, b] =>
     if a == b then bad s else
     match s.tab a, s.tab b with
     | none, some tb =>
-      let s := (((s.setTab a (some tb)).setTab b none).stale a).stale b
-      (s, ["P move"] ++ stateLines a (some tb) ++ stateLines b none)
+      let (ta', tb') := moveTable (some tb)
+      let s := (((s.setTab a ta').setTab b tb').stale a).stale b
+      (s, ["P move"] ++ stateLines a ta' ++ stateLines b tb')
     | _, _ => (s, ["P move refused"])
   | ["eq", a, b] => match s.tab a, s.tab b with
-    | some ta, some tb => (s, [s!"P eq {if tableEq s.h ta tb then 1 else 0}"])
+    | some ta, some tb => (s, [s!"P eq {if tableEq s.h (fun x y => x == y) ta tb then 1 else 0}"])
+    | _, _ => (s, ["P nil"])
+  | ["eqm", a, b] => match s.tab a, s.tab b with
+    | some ta, some tb => (s, [s!"P eqm {if tableEq s.h (fun x y => x % 8 == y % 8) ta tb then 1 else 0}"])
     | _, _ => (s, ["P nil"])
   | ["iter_begin", n, i] => match s.tab n with
     | none => (s, ["P nil"])
